@@ -102,7 +102,7 @@ pub fn behaviour() -> Behaviour {
         cfg,
         adjust: no_adjust,
         render,
-        quick: 1500,
+        quick: 4000,
         thorough: 20000,
         batch: 25,
         assumptions: &["custom methods m_eq_le (asymmetric) and m_eq_mod make argument order and method identity observable"],
